@@ -556,6 +556,24 @@ func c04R2(c *Ctx, p *Prog) {
 											}
 										}
 									}
+								case *ast.CallExpr:
+									// record(pos, len("ns"), "sec"): the replacement handed to a recording function
+									if id, ok := y.Fun.(*ast.Ident); ok && id.Name != "len" && id.Name != "append" {
+										for _, a := range y.Args {
+											if tv := info.Types[a]; tv.Value != nil && tv.Value.Kind() == constant.String {
+												s := constant.StringVal(tv.Value)
+												repl = &s
+											}
+											if ce, ok := a.(*ast.CallExpr); ok {
+												if id2, ok := ce.Fun.(*ast.Ident); ok && id2.Name == "len" && len(ce.Args) == 1 {
+													if tv := info.Types[ce.Args[0]]; tv.Value != nil && tv.Value.Kind() == constant.String {
+														s := constant.StringVal(tv.Value)
+														lenLit = &s
+													}
+												}
+											}
+										}
+									}
 								case *ast.AssignStmt:
 									// the replacement may be put into a local first and the edit recorded after the switch
 									if (y.Tok == token.ASSIGN || y.Tok == token.DEFINE) && len(y.Rhs) == 1 && len(y.Lhs) == 1 {
